@@ -256,7 +256,15 @@ def run_case(ctx, case):
             try:
                 ctx.tag("load:from_stream")
                 with open(fhdr, "r") as fh, open(fbil, "rb") as fd:
+                    if (nrows + ncols) % 2:
+                        # handles that were read from before (a caller peeking at the
+                        # header, a loop over the same open files)
+                        fh.readline()
+                        fd.read(3)
+                        ctx.tag("load:from_stream-handles-used-before")
                     loaders["from_stream"] = g.Grid.from_stream(fh, fd)
+                    # ... and the same handles once more
+                    loaders["from_stream(same handles again)"] = g.Grid.from_stream(fh, fd)
             except Exception as e:
                 ctx.check("load.runs", False, "from_stream|raises", case,
                           {"exc": repr(e)})
@@ -407,6 +415,21 @@ def run_case(ctx, case):
                                                   gr.to_dict().items()}})
     except Exception as e:
         ctx.check("dict.metadata", False, "dict|raises", case, {"exc": repr(e)})
+    # ... and from a process in another state (terse / legacy print options of numpy and
+    # pandas, FP flags raised, stdout closed): what the dictionary holds is data
+    try:
+        from hyverif.core import dirty_process_state
+        ctx.tag("dict:process-state")
+        with dirty_process_state():
+            dd = gr.to_dict()
+        g4 = g.Grid.from_dict(copy.deepcopy(dd))
+        d = geometry_equal(gr, g4)
+        ctx.check("dict.metadata-process-state", not d,
+                  "dict|result-depends-on-process-state:" + "+".join(d), case,
+                  lambda: {"differs": d, "dict": {k: repr(v) for k, v in dd.items()}})
+    except Exception as e:
+        ctx.check("dict.metadata-process-state", False,
+                  "dict|raises-in-another-process-state", case, {"exc": repr(e)})
     # ---------------------------------------------------------------- clone ----
     ctx.tag("clone")
     ctx.api("Grid.clone")
@@ -646,9 +669,20 @@ def run_catchment_case(ctx, case):
         cand = sorted(model.area(o) - {o})
         inlets = [int(v) for v in rng.choice(cand, size=min(2, len(cand)),
                                              replace=False)]
+        if int(case["seed"]) % 3 == 1:
+            # an inlet named more than once (lists merged from several sources)
+            inlets = inlets + [inlets[0]] if int(case["seed"]) % 2 else [inlets[-1]] + inlets
+            ctx.tag("catchment-dict:inlet-named-twice")
         ctx.tag("catchment-dict:inlets")
     ctx.evaluated()
     ctx.tag("catchment-dict")
+    if int(case["seed"]) % 2 == 0 and sizes[o] >= 3:
+        # the object was delineated before, from the same outlet with other inlets (the
+        # dictionary describes the latest delineation only)
+        rng2 = np.random.default_rng(int(case["seed"]) + 77)
+        prev = [int(v) for v in rng2.choice(sorted(model.area(o) - {o}), size=1)]
+        cat.delineate_area(o, prev, nval=model.n + 5)
+        ctx.tag("catchment-dict:re-delineated")
     cat.delineate_area(o, inlets, nval=model.n + 5)
     ctx.api("Catchment.to_dict/from_dict")
     dic = cat.to_dict()
